@@ -135,18 +135,65 @@ Theorem c16_v4_spellings : forall ps,
 Proof. exact inet_aton_spelling. Qed.
 Print Assumptions c16_v4_spellings.
 
-(* (4'') IPv6 printers vs reader.  Full statement (not proved in general): *)
-Definition c16_canonical_v6_full : Prop := forall ws,
+(* (4'') Canonical IPv6: for ARBITRARY eight 16-bit words, the text written by
+         glibc inet_ntop (what getaddrinfo returns: longest zero run as "::",
+         dotted tail for ::a.b.c.d and ::ffff:a.b.c.d) and the text written by
+         Python's ipaddress (RFC 5952, no dotted tail) are both read back as
+         exactly those words by the reader (inet_pton / ipaddress). *)
+Theorem c16_canonical_v6_full : forall ws,
   length ws = 8%nat -> Forall (fun w => w < 65536) ws ->
   parse_v6 (print_v6 true ws) = Some ws /\ parse_v6 (print_v6 false ws) = Some ws.
-(* Proved: all 6561 eight-word lists over {0, 1, ffff} — every position and
-   length of the "::" compression and both dotted-tail cases of glibc — by
-   kernel computation.  Gap: arbitrary word VALUES (the hex digit printer/reader
-   pair for all 65536 values) is covered by the correspondence only. *)
-Theorem c16_canonical_v6_partial : forall ws, In ws (word_lists 8) ->
-  parse_v6 (print_v6 true ws) = Some ws /\ parse_v6 (print_v6 false ws) = Some ws.
-Proof. exact v6_print_parse. Qed.
-Print Assumptions c16_canonical_v6_partial.
+Proof. exact v6_print_parse_full. Qed.
+Print Assumptions c16_canonical_v6_full.
+
+(* (4c) The reader's range, for EVERY text: what it accepts is eight words
+        below 65536 (so the theorems above apply to whatever it read) ... *)
+Theorem c16_v6_reader_range : forall s ws,
+  parse_v6 s = Some ws -> length ws = 8%nat /\ Forall (fun w => w < 65536) ws.
+Proof. exact parse_v6_range. Qed.
+Print Assumptions c16_v6_reader_range.
+
+(* ... and Python's ipaddress maps either canonical text to Python's canonical
+   text of the same words: the address returned by getaddrinfo and the host
+   returned by parse_hostport denote the same address. *)
+Theorem c16_canonical_v6_python : forall e ws,
+  length ws = 8%nat -> Forall (fun w => w < 65536) ws ->
+  py_ip_str (print_v6 e ws) = Some (print_v6 false ws).
+Proof.
+  intros e ws Hl Hw. apply py_ip_str_v6; [exact (print_v6_v6ch e ws Hw)|].
+  destruct e; [exact (proj1 (v6_print_parse_full ws Hl Hw))|exact (proj2 (v6_print_parse_full ws Hl Hw))].
+Qed.
+Print Assumptions c16_canonical_v6_python.
+
+(* (4d) Canonical IPv6, as (4) for IPv4: every text the IPv6 reader accepts
+        resolves to glibc's canonical text of the eight words it denotes; that
+        text is read back as the same words, is mapped by Python's ipaddress to
+        Python's canonical text of the same words, and is a fixed point of the
+        resolver. *)
+Theorem c16_canonical_v6 : forall rs s ws,
+  parse_v6 s = Some ws -> idna_labels_ok (split_on "." s) = true ->
+  getaddrinfo rs s = Ok [(AF_INET6, print_v6 true ws)] /\
+  length ws = 8%nat /\ Forall (fun w => w < 65536) ws /\
+  parse_v6 (print_v6 true ws) = Some ws /\
+  py_ip_str (print_v6 true ws) = Some (print_v6 false ws) /\
+  getaddrinfo rs (print_v6 true ws) = Ok [(AF_INET6, print_v6 true ws)].
+Proof. intros rs s ws. exact (v6_canonical s ws rs). Qed.
+Print Assumptions c16_canonical_v6.
+
+(* (2''') a numeric IPv6 host in ANY spelling the reader accepts (compressed or
+          not, leading zeros, upper case, dotted tail): glibc's canonical text of
+          its value, family AF_INET6, width/ports as given. *)
+Theorem c16_subnet_roundtrip_numeric_v6 : forall rs sp ws,
+  host6_ok (sp_host sp) = true -> spec_ok sp = true -> spec_short sp = true ->
+  parse_v6 (sp_host sp) = Some ws -> idna_labels_ok (split_on "." (sp_host sp)) = true ->
+  (match sp_width sp with None => True | Some d => dec_val d <= 128 end) ->
+  parse_subnetport rs (render6 sp) =
+  Ok [(AF_INET6, print_v6 true ws, spec_width_val AF_INET6 sp, spec_fport_val sp, spec_lport_val sp)].
+Proof.
+  intros rs sp ws Hh Hok Hs Hp Hi Hw.
+  exact (subnet_roundtrip6 rs sp AF_INET6 (print_v6 true ws) Hh Hok Hs (getaddrinfo_v6 rs _ ws Hp Hi) Hw).
+Qed.
+Print Assumptions c16_subnet_roundtrip_numeric_v6.
 
 (* (5) Listen / --to-ns specifications. *)
 Theorem c16_ipport : forall rs h p fam addr,
@@ -220,14 +267,43 @@ Theorem c16_hostport_host : forall h, lacks ":" h = true -> host_part h = Ok (No
 Proof. exact host_part_plain. Qed.
 Print Assumptions c16_hostport_host.
 
-(* host:port and [v6]:port.  Full statement (not proved in general; the
-   urlparse/ipaddress reductions are tied to the real code by the
-   correspondence only): *)
-Definition c16_hostport_port_full : Prop := forall h p,
+(* host:port, through parse_hostport's ipaddress / urlparse route: for every
+   host over [\w.-]+ and every port 0..65535 written in digits, the port is
+   the number and the host is the text lower-cased (observation, DNS names are
+   case-insensitive), or the canonical dotted quad if that text is one. *)
+Theorem c16_hostport_port : forall h p,
+  name4_ok h = true -> digits_ok p = true -> short p = true -> dec_val p <= 65535 ->
+  host_part (h ++ ":" :: p) =
+  Ok (Some (dec_val p),
+      Some (match py_ip_str (map to_lower h) with Some c => c | None => map to_lower h end)).
+Proof. exact host_part_name_port. Qed.
+Print Assumptions c16_hostport_port.
+
+(* the statement as first written (with a premise that turned out unnecessary) *)
+Corollary c16_hostport_port_full : forall h p,
   name4_ok h = true -> lacks "_" h = true -> digits_ok p = true -> short p = true -> dec_val p <= 65535 ->
   host_part (h ++ ":" :: p) =
   Ok (Some (dec_val p),
       Some (match py_ip_str (map to_lower h) with Some c => c | None => map to_lower h end)).
+Proof. intros h p Hh _. exact (host_part_name_port h p Hh). Qed.
+Print Assumptions c16_hostport_port_full.
+
+(* an IPv6 literal as the remote host, in any lower-case spelling t the reader
+   accepts (alphabet 0-9 a-f ':' '.'): without a port it is given bare, with a
+   port it must be bracketed; either way the host returned is Python's
+   canonical text of the words it denotes. *)
+Theorem c16_hostport_v6 : forall t ws,
+  forallb is_v6ch t = true -> parse_v6 t = Some ws ->
+  host_part t = Ok (None, Some (print_v6 false ws)).
+Proof. exact host_part_v6. Qed.
+Print Assumptions c16_hostport_v6.
+
+Theorem c16_hostport_v6_port : forall t ws p,
+  forallb is_v6ch t = true -> parse_v6 t = Some ws ->
+  digits_ok p = true -> short p = true -> dec_val p <= 65535 ->
+  host_part ("[" :: t ++ "]" :: ":" :: p) = Ok (Some (dec_val p), Some (print_v6 false ws)).
+Proof. exact host_part_bracket_port. Qed.
+Print Assumptions c16_hostport_v6_port.
 
 (* (7) An option given on the command line overrides the same option taken
        from SSHUTTLE_ARGS; an option given only there is used; the value in
@@ -295,6 +371,34 @@ Example c16_ex_hostport :
   lacks ":" (B "u@x"%string) = true /\ lacks "@" (B "[2001:DB8::1]:22"%string) = true /\
   host_part (B "Example.COM:2222"%string) = Ok (Some 2222, Some (B "example.com"%string)) /\
   parse_hostport (B "host:abc"%string) = Raise EValue.
+Proof. vm_compute. repeat split. Qed.
+
+Example c16_ex_canonical_v6 :
+  let ws := [8193; 3512; 0; 0; 43981; 0; 0; 4660] in          (* 2001:db8:0:0:abcd:0:0:1234 *)
+  let emb := [0; 0; 0; 0; 0; 65535; 49320; 513] in            (* ::ffff:192.168.2.1 *)
+  length ws = 8%nat /\ Forall (fun w => w < 65536) ws /\
+  print_v6 true ws = B "2001:db8::abcd:0:0:1234"%string /\
+  print_v6 false ws = B "2001:db8::abcd:0:0:1234"%string /\
+  print_v6 true emb = B "::ffff:192.168.2.1"%string /\
+  print_v6 false emb = B "::ffff:c0a8:201"%string /\
+  parse_v6 (B "::ffff:192.168.2.1"%string) = Some emb /\ parse_v6 (B "::ffff:c0a8:201"%string) = Some emb.
+Proof. split; [reflexivity|]. split; [repeat constructor|]. vm_compute. repeat split. Qed.
+
+Example c16_ex_numeric_v6 :
+  let sp := mkSpec (B "2001:DB8:0:0:ABCD::0.0.18.52"%string) (Some (B "64"%string)) (Some (B "443"%string, None)) in
+  host6_ok (sp_host sp) = true /\ spec_ok sp = true /\ spec_short sp = true /\
+  parse_v6 (sp_host sp) = Some [8193; 3512; 0; 0; 43981; 0; 0; 4660] /\
+  idna_labels_ok (split_on "." (sp_host sp)) = true /\
+  parse_subnetport no_names (render6 sp) = Ok [(AF_INET6, B "2001:db8::abcd:0:0:1234"%string, 64, 443, 443)].
+Proof. vm_compute. repeat split. Qed.
+
+Example c16_ex_hostport_v6 :
+  let t := B "2001:db8:0:0:abcd::1234"%string in
+  forallb is_v6ch t = true /\ parse_v6 t = Some [8193; 3512; 0; 0; 43981; 0; 0; 4660] /\
+  host_part (B "[2001:db8:0:0:abcd::1234]:2222"%string) = Ok (Some 2222, Some (B "2001:db8::abcd:0:0:1234"%string)) /\
+  name4_ok (B "Under_Score-1.LAN"%string) = true /\
+  host_part (B "Under_Score-1.LAN:22"%string) = Ok (Some 22, Some (B "under_score-1.lan"%string)) /\
+  host_part (B "10.0.0.1:22"%string) = Ok (Some 22, Some (B "10.0.0.1"%string)).
 Proof. vm_compute. repeat split. Qed.
 
 Example c16_ex_ipport :
